@@ -38,6 +38,14 @@ Tp3(in) == Hg(in) + Lw(in) + Cl(in)            \* 3 x typical price, kept integr
 \* the scalar a single-series kind consumes
 Scalar(kind, in) == IF kind = "MIN" THEN Lw(in) ELSE IF kind = "MAX" THEN Hg(in) ELSE Cl(in)
 
+\* the effective input: exactly the numbers of a scalar / bar that the kind is documented to read
+\* (C10).  Two inputs with the same effective input are indistinguishable to the indicator.
+Eff(kind, in) ==
+    CASE kind \in {"TR", "ATR", "FAST_STOCH", "SLOW_STOCH", "KC", "CE", "CCI"} -> <<Hg(in), Lw(in), Cl(in)>>
+      [] kind = "MFI" -> <<in.h, in.l, in.c, in.v>>
+      [] kind = "OBV" -> <<in.c, in.v>>
+      [] OTHER -> <<Scalar(kind, in)>>
+
 ---------------------------------------------------------------------------
 (* sequence helpers *)
 LastN(s, n) == IF Len(s) <= n THEN s ELSE SubSeq(s, Len(s) - n + 1, Len(s))
@@ -53,11 +61,16 @@ AbsDevSum(w) == LET L == Len(w)  S == SumS(w)
 PathLen(w) == FoldLeft(LAMBDA a, i : a + Abs(w[i + 1] - w[i]), 0, [i \in 1..(Len(w) - 1) |-> i])
 
 ---------------------------------------------------------------------------
-(* window statistics of a non-empty integer window *)
+(* window statistics of a non-empty integer window.  The integer sums must stay below 2^31; *)
+(* where they cannot (a spike such as 10^6 in the window) the value is OVF: no expectation.    *)
+MaxAbs(w) == FoldLeft(LAMBDA a, x : IMax(a, Abs(x)), 0, w)
 Mean(w)   == Norm(SumS(w), Len(w))
-WMean(w)  == Norm(WSum(w), (Len(w) * (Len(w) + 1)) \div 2)          \* newest (last) heaviest
-PVar(w)   == Norm(Len(w) * SumSq(w) - SumS(w) * SumS(w), Len(w) * Len(w))   \* population variance
-MADev(w)  == Norm(AbsDevSum(w), Len(w) * Len(w))
+WMean(w)  == IF Len(w) * Len(w) * MaxAbs(w) >= 1000000000 THEN OVF
+             ELSE Norm(WSum(w), (Len(w) * (Len(w) + 1)) \div 2)     \* newest (last) heaviest
+PVar(w)   == IF Len(w) * MaxAbs(w) >= 46340 THEN OVF                 \* population variance
+             ELSE Norm(Len(w) * SumSq(w) - SumS(w) * SumS(w), Len(w) * Len(w))
+MADev(w)  == IF Len(w) * Len(w) * MaxAbs(w) >= 500000000 THEN OVF
+             ELSE Norm(AbsDevSum(w), Len(w) * Len(w))
 
 ---------------------------------------------------------------------------
 (* exponential average: first input copied, then a*x + (1-a)*prev, a = 2/(n+1) *)
@@ -242,12 +255,13 @@ RefStep(kind, p, s, in) ==
     [] kind = "CCI" ->
         LET w == Push(s.w, Tp3(in), p.n)          \* 3 x typical price
             L == Len(w)
-            devsum == AbsDevSum(w)                \* = 3 L sum |tp - mean|
             \* (tp - sma) / (0.015 mad) = (L w_t - S)/(3L) / ( (3/200) devsum/(3 L^2) )
-            out == IF devsum = 0 THEN RZero
+            big == L * L * MaxAbs(w) >= 500000000
+            devsum == IF big THEN 1 ELSE AbsDevSum(w)    \* = 3 L sum |tp - mean|
+            out == IF big THEN OVF ELSE IF devsum = 0 THEN RZero
                    ELSE RDiv(Norm(L * w[L] - SumS(w), 3 * L), RMul(<<3, 200>>, Norm(devsum, 3 * L * L)))
         IN O([w |-> w], <<F("out", out, "ratio", IF devsum = 0 THEN "exact" ELSE "cond")>>,
-             IF devsum = 0 THEN NoDen ELSE Norm(devsum, 3 * L * L), "spread", AllEq(w), RZero, RZero)
+             IF big THEN OVF ELSE IF devsum = 0 THEN NoDen ELSE Norm(devsum, 3 * L * L), "spread", AllEq(w), RZero, RZero)
     [] kind = "MFI" ->
         LET w == Push(s.w, <<Tp3(in), in.v>>, p.n + 1)
             L == Len(w)
@@ -256,7 +270,7 @@ RefStep(kind, p, s, in) ==
             neg == FoldLeft(LAMBDA a, i : IF w[i][1] < w[i - 1][1] THEN a + w[i][1] * w[i][2] ELSE a, 0, idx)
             mx == IMax(s.mx, Abs(w[L][1] * w[L][2]))      \* largest single-bar (3 x) money flow since reset
         IN O([w |-> w, mx |-> mx],
-             <<F("out", IF L = 1 THEN RI(50) ELSE IF pos + neg = 0 THEN UNDEF ELSE Norm(100 * pos, pos + neg),
+             <<F("out", IF L = 1 THEN RI(50) ELSE IF pos + neg = 0 THEN UNDEF ELSE RScale(100, Norm(pos, pos + neg)),
                  "ratio", IF L = 1 THEN "exact" ELSE "cond")>>,
              \* den / largest flow since reset: 1/c of the property
              IF L = 1 \/ pos + neg = 0 THEN NoDen ELSE Norm(pos + neg, IMax(mx, 1)), "invc",
